@@ -50,7 +50,11 @@ def p_value(v, in_calc=False):
                 out.append(val)
         return ('calc', out)
     if cls == 'CSSVariable':
-        return ('var', v.name)
+        fb = getattr(v, 'fallback', None)
+        if fb is None:
+            return ('var', v.name)
+        # (the fallback is a value or a whole property value)
+        return ('var', v.name, p_propertyvalue(fb) if hasattr(fb, 'seq') and type(fb).__name__ == 'PropertyValue' else p_value(fb))
     if cls == 'MSValue':
         return ('ms', v.cssText)
     if cls == 'Value':
